@@ -645,6 +645,7 @@ func c07CheckToJSONGo(ru *fw.Rule, p *fw.Program, fn *ssa.Function, optT *types.
 	ru.Check(v == ssa.Value(input) || marshal.Common().Args[1] == ssa.Value(input), "_to_json/1:marshal-input", p.Rel(marshal.Pos()), "Marshal(input, buffer)", "the value marshalled is not the jq input of _to_json")
 	bufV, _ := stripIface(marshal.Common().Args[2])
 	good := false
+	other := ""
 	fw.EachInstr(fn, func(ins ssa.Instruction) {
 		ret, isRet := ins.(*ssa.Return)
 		if !isRet || len(ret.Results) != 1 {
@@ -653,9 +654,16 @@ func c07CheckToJSONGo(ru *fw.Rule, p *fw.Program, fn *ssa.Function, optT *types.
 		rv, _ := stripIface(ret.Results[0])
 		if call, isCall := rv.(*ssa.Call); isCall && fw.CalleeName(call) == "(*bytes.Buffer).String" && call.Common().Args[0] == bufV {
 			good = true
+			return
 		}
+		// every other return is an error value (a conversion failure), never a text produced some other way
+		if types.Implements(rv.Type(), errorIface()) || types.Implements(types.NewPointer(rv.Type()), errorIface()) {
+			return
+		}
+		other = p.Rel(ret.Pos())
 	})
 	ru.Check(good, "_to_json/1:result", p.Rel(fn.Pos()), "returns String() of the buffer marshalled into", "the result is not the String() of the buffer the encoder wrote to")
+	ru.Check(other == "", "_to_json/1:only-result", p.Rel(fn.Pos()), "every non-error return is the marshalled buffer", "_to_json has a return at "+other+" that is neither an error nor the text the engine-equivalent encoder wrote: some inputs (a fast path for strings, numbers ...) are encoded by something else, e.g. encoding/json which escapes <, >, & and U+2028/9 where the engine does not")
 }
 
 func c07FromParamField(v ssa.Value) bool {
